@@ -9,6 +9,7 @@
 package simkit
 
 import (
+	"bytes"
 	"crypto/sha256"
 	"encoding/binary"
 	"encoding/json"
@@ -17,9 +18,11 @@ import (
 	"os"
 	"regexp"
 	"runtime/debug"
+	"runtime/pprof"
 	"sort"
 	"strconv"
 	"strings"
+	"sync/atomic"
 	"testing"
 	"time"
 
@@ -44,6 +47,7 @@ type Run struct {
 	trace      []string
 	simSeconds float64
 	viol       *Violation
+	progress   int64 // bumped by every recorder call; read by the hang watchdog
 }
 
 func newRun(prop string) *Run {
@@ -51,7 +55,10 @@ func newRun(prop string) *Run {
 }
 
 // Count adds n to a named counter (fault kind fired, probe hit, …).
-func (r *Run) Count(name string, n int) { r.counters[name] += int64(n) }
+func (r *Run) Count(name string, n int) {
+	atomic.AddInt64(&r.progress, 1)
+	r.counters[name] += int64(n)
+}
 
 // Tracef appends a line to the run's trace (kept for samples, capped) and feeds
 // the run fingerprint.
@@ -65,6 +72,7 @@ func (r *Run) Tracef(format string, args ...any) {
 
 // FP feeds the run fingerprint only.
 func (r *Run) FP(s string) {
+	atomic.AddInt64(&r.progress, 1)
 	h := sha256.New()
 	h.Write(r.fp)
 	h.Write([]byte(s))
@@ -285,6 +293,57 @@ func Capture(p any) *CapturedPanic {
 // ExecGuard runs Exec, converting a panic on the calling goroutine into a
 // violation with oracle "panic".
 func execGuard(t *testing.T, spec *Spec, plan any, r *Run) {
+	// Real-time watchdog (outside any bubble): a run that does not finish is a
+	// hang of the code under test (e.g. a lock cycle, which synctest cannot see as
+	// durably blocked). It is reported like a crash: the worker dies with the
+	// stack of the stuck run, the driver replays the write-ahead plan to confirm.
+	limit := time.Duration(envInt("VERIF_EXEC_TIMEOUT_S", 300)) * time.Second
+	stop := make(chan struct{})
+	go func() {
+		// fires only when the run made NO progress (no counter, trace or fingerprint
+		// update) for the whole limit, so a slow run on a loaded machine is not a hang
+		last := atomic.LoadInt64(&r.progress)
+		idle := time.Duration(0)
+		step := limit / 6
+		for {
+			select {
+			case <-stop:
+				return
+			case <-time.After(step):
+			}
+			if cur := atomic.LoadInt64(&r.progress); cur != last {
+				last, idle = cur, 0
+				continue
+			}
+			if idle += step; idle < limit {
+				continue
+			}
+			var buf bytes.Buffer
+			pprof.Lookup("goroutine").WriteTo(&buf, 2)
+			dump := buf.String()
+			frame := "unknown"
+			for _, g := range strings.Split(dump, "\n\n") {
+				if !strings.Contains(g, "verif/sim/") || strings.Contains(g, "simkit.execGuard.func") {
+					continue
+				}
+				for _, l := range strings.Split(g, "\n") {
+					if strings.HasPrefix(l, "github.com/bytom/bytom/") {
+						frame = l
+						break
+					}
+				}
+				if frame != "unknown" {
+					break
+				}
+			}
+			if len(dump) > 20000 {
+				dump = dump[:20000]
+			}
+			fmt.Fprintf(os.Stderr, "panic: simkit watchdog: run made no progress for %v of real time (hang)\n%s\n\nall goroutines:\n%s\n", limit, frame, dump)
+			os.Exit(3)
+		}
+	}()
+	defer close(stop)
 	defer func() {
 		if p := recover(); p != nil {
 			st := string(debug.Stack())
